@@ -47,7 +47,7 @@ var (
 
 const (
 	c11LimitChain  = 150     // length of the include chain (documented maximum 100)
-	c11LimitDepth  = 50_000  // evaluate() nesting depth
+	c11LimitDepth  = 5_000   // evaluate() nesting depth (include chain <= 100 files x element nesting)
 	c11LimitEvals  = 3_000_000
 	c11LimitSerial = 5_000_000
 	c11LimitLayout = 120 // layout loop iterations (documented maximum 100)
@@ -122,7 +122,7 @@ func init() {
 		MemKB: 3 << 20,
 		Assumptions: []string{
 			"functions registered by the harness are total; a panic inside a user function would not be counted against the engine",
-			"bounded progress is decided on logical counters reported by hooks (include chain <= 150, layout iterations <= 120, evaluate depth <= 50k, <= 3M evaluate calls and <= 5M serialiser steps per case); a wall-clock watchdog firing without a bound being exceeded is inconclusive",
+			"bounded progress is decided on logical counters reported by hooks (include chain <= 150, layout iterations <= 120, evaluate depth <= 5k, <= 3M evaluate calls and <= 5M serialiser steps per case); a wall-clock watchdog firing without a bound being exceeded is inconclusive",
 			"self-referential maps are not generated (printing them with fmt overflows the stack in any Go program); self-referential pointer structs are",
 		},
 		TimeoutS: func(ctx core.Ctx) int { return ctx.Pick(900, 3600) },
